@@ -429,6 +429,16 @@ func (p *Processor) processConnectAttempt(rep ConnectAttempt) {
 		return
 	}
 
+	// A connect attempt is only launched for an application in the unknown
+	// state, but a second one can be launched (after the back-off) while the
+	// first is still in flight. Once one of them has decided the
+	// application's fate the result of the other is stale: it must neither
+	// revive a disconnected application nor create a second run.
+	if AppStateUnknown != app.state {
+		log.Debugf("app '%s': ignoring the result of a superseded connect attempt", app)
+		return
+	}
+
 	app.RawConnectReply = rep.RawReply.Body
 	if rep.RawReply.IsDisconnect() {
 		app.state = AppStateDisconnected
